@@ -96,6 +96,8 @@ type panicExit struct {
 	st    *State
 	where string
 	text  string
+	cut   int // the isolate cut active where the panic was raised (its obligation is emitted at the end of the function)
+	hasCut bool
 }
 
 type edgeInfo struct {
@@ -588,7 +590,7 @@ func (ex *Exec) unwind(fr *Frame) {
 			}
 		}
 		if !cond.IsFalse() {
-			fr.panics = append(fr.panics, panicExit{cond, p.val, st, p.where, p.text})
+			fr.panics = append(fr.panics, panicExit{cond, p.val, st, p.where, p.text, p.cut, p.hasCut})
 		}
 		if !recoveredAll.IsFalse() && fr.fn.Recover != nil {
 			// resume in the recover block: it loads the named results and returns
@@ -1391,7 +1393,7 @@ func (ex *Exec) instr(fr *Frame, b *ssa.BasicBlock, in ssa.Instruction, st *Stat
 				txt = c.Value.ExactString()
 			}
 		}
-		fr.panics = append(fr.panics, panicExit{reach, v, st, ex.where(x.Pos()), txt})
+		fr.panics = append(fr.panics, panicExit{reach, v, st, ex.where(x.Pos()), txt, ex.vc.curCut, true})
 	default:
 		panic(unsupported("instruction %T (%s) in %s", in, in, fr.fn))
 	}
